@@ -204,7 +204,7 @@ func ChunkToSave(c *Chunk, dst *save.Chunk) (err error) {
 }
 
 func writeStatesPalette(paletteData *PaletteContainer[BlocksState]) (palette []save.BlockState, data []uint64, err error) {
-	rawPalette := paletteData.palette.export()
+	rawPalette, rawData := paletteData.savedForm()
 	palette = make([]save.BlockState, len(rawPalette))
 
 	var buffer bytes.Buffer
@@ -223,13 +223,13 @@ func writeStatesPalette(paletteData *PaletteContainer[BlocksState]) (palette []s
 		}
 	}
 
-	data = make([]uint64, len(paletteData.data.Raw()))
-	copy(data, paletteData.data.Raw())
+	data = make([]uint64, len(rawData))
+	copy(data, rawData)
 	return
 }
 
 func writeBiomesPalette(paletteData *PaletteContainer[BiomesState]) (palette []save.BiomeState, data []uint64, err error) {
-	rawPalette := paletteData.palette.export()
+	rawPalette, rawData := paletteData.savedForm()
 	palette = make([]save.BiomeState, len(rawPalette))
 
 	var biomeID []byte
@@ -241,8 +241,8 @@ func writeBiomesPalette(paletteData *PaletteContainer[BiomesState]) (palette []s
 		palette[i] = save.BiomeState(biomeID)
 	}
 
-	data = make([]uint64, len(paletteData.data.Raw()))
-	copy(data, paletteData.data.Raw())
+	data = make([]uint64, len(rawData))
+	copy(data, rawData)
 	return
 }
 
